@@ -584,6 +584,22 @@ func runCodecID(c CodecIDCase) (res common.Result) {
 			res.Fail = common.Failf("different-codec-accepted", "directory written with codec ID %d opened with codec ID %d without error", c.WriteID, c.ReopenID)
 		}
 	}
+	if res.Fail != nil || c.ReopenID == c.WriteID {
+		return
+	}
+	// the refused Open must have left the directory as it was and free: the same process opens
+	// it again with the codec it was written with (the simulated metadata store fails a Load while
+	// an earlier instance still holds it, where bolt would block)
+	w3, err := cfg.Open()
+	if err != nil {
+		res.Fail = common.Failf("same-codec-refused-after-refusal", "after Open with codec ID %d was refused (rightly), the WAL created with codec ID %d cannot be reopened with its own codec: %v", c.ReopenID, c.WriteID, err)
+		return
+	}
+	defer w3.Close()
+	res.Classes = append(res.Classes, "own-codec-reopened-after-refusal")
+	if sig, msg := kit.CheckAgainst(w3, m, nil); sig != "" {
+		res.Fail = common.Failf(sig, "reopened with its own codec %d after a refused Open with codec %d: %s", c.WriteID, c.ReopenID, msg)
+	}
 	return
 }
 
